@@ -428,14 +428,31 @@ Proof.
   inversion I3; subst. constructor; [apply (range_clr s k)|assumption].
 Qed.
 
-Ltac skc_auto :=
-  repeat (cbv beta;
-    first [ apply skc_ret | apply skc_fail | apply skc_push_tok | apply skc_allow | apply skc_disallow
-          | apply skc_roll_one | apply skc_save | apply skc_remove | apply skc_stale | apply skc_eim
-          | apply skc_incr | apply skc_decr | apply skc_roll_indent_none | apply skc_unroll_m1 | apply skc_unroll_N
-          | apply skc_clear_head
-          | apply skc_if | apply skc_bind | apply skc_get; intros ? | apply skc_mark; intros ?
-          | apply skc_modify; intros ?; skel_triv ]).
+Ltac skc_one :=
+  cbv beta;
+  lazymatch goal with
+  | |- skstep (ret tt) => apply skc_ret
+  | |- skstep (fail _ _) => apply skc_fail
+  | |- skstep (if _ then _ else _) => apply skc_if
+  | |- skstep (bind get _) => apply skc_get; intros ?
+  | |- skstep (bind mark _) => apply skc_mark; intros ?
+  | |- skstep (bind _ _) => apply skc_bind
+  | |- skstep (push_tok _) => apply skc_push_tok
+  | |- skstep allow_simple_key => apply skc_allow
+  | |- skstep disallow_simple_key => apply skc_disallow
+  | |- skstep roll_one_col_indent => apply skc_roll_one
+  | |- skstep save_simple_key => apply skc_save
+  | |- skstep remove_simple_key => apply skc_remove
+  | |- skstep stale_simple_keys => apply skc_stale
+  | |- skstep (end_implicit_mapping _) => apply skc_eim
+  | |- skstep increase_flow_level => apply skc_incr
+  | |- skstep decrease_flow_level => apply skc_decr
+  | |- skstep (roll_indent _ None _ _) => apply skc_roll_indent_none
+  | |- skstep (unroll_indent (-1)%Z) => apply skc_unroll_m1
+  | |- skstep (unroll_indent (Z.of_N _)) => apply skc_unroll_N
+  | |- skstep (modify _) => first [apply skc_clear_head | apply skc_modify; intros ?; skel_triv]
+  end.
+Ltac skc_auto := repeat skc_one.
 
 (* one skeleton step of a sequence *)
 Ltac sks :=
@@ -683,7 +700,7 @@ Proof.
   destruct dstart; [apply wp_fetch_document_indicator; [assumption|lia]|].
   destruct dend.
   { wb. eapply wp_mono; [apply wp_fetch_document_indicator; [assumption|lia]|].
-    intros _ s6 HI6. cbv beta.
+    intros u6 s6 HI6. unfold post_si in HI6. cbv beta.
     wb. eapply use_spec; [apply H_ws|]. kstepv.
     wb. apply (wp_next_is cap cap_ge); [lia|]. intros b. cbv beta.
     destruct b; [apply wp_ret; assumption|wmark; apply wp_fail]. }
@@ -719,7 +736,7 @@ Proof.
     apply Bool.not_true_iff_false in EX. apply EX. apply existsb_exists. exists k. split; [exact Hk|].
     rewrite Hp, Heq, N.eqb_refl. reflexivity.
   - intros need s1 [HJ1 HN]. cbv beta. destruct need.
-    + wb. eapply wp_mono; [apply wp_fetch_next_token; exact HJ1|]. intros _ s2 HI2. cbv beta.
+    + wb. eapply wp_mono; [apply wp_fetch_next_token; exact HJ1|]. intros u2 s2 HI2. unfold post_si in HI2. cbv beta.
       apply IH. apply si_J. exact HI2.
     + apply wp_modify. split; [eapply j_ext; [|exact HJ1]; skel_triv|]. exact (HN eq_refl).
 Qed.
@@ -749,7 +766,7 @@ Proof.
   apply wp_bind, wp_put.
   wb. apply wp_mono with (Q := fun _ s' => SInv' s').
   { destruct (snd t); try (apply wp_ret; exact H2).
-    apply wp_modify. eapply sinv'_ext; [| |exact H2]; [skel_triv|reflexivity]. }
+    all: apply wp_modify; eapply sinv'_ext; [| |exact H2]; [skel_triv|reflexivity]. }
   intros _ s3 H3. cbv beta. apply wp_ret. exact H3.
 Qed.
 
